@@ -49,6 +49,8 @@ class PCMMinorFrame(object):
         :rtype: bool
         """
         if self.ipts is not None:
+            # Decode into a new time stamp object: the previous one may have been handed to other code
+            self.ipts = type(self.ipts)()
             self.ipts.unpack(buffer[:8])
         # Only extract_sync_sfid fills these in; the data header is absent in throughput mode
         self.syncword = None
